@@ -147,4 +147,79 @@ example : parseLeader (headerBlock [("x-THING".toList, " a: b ".toList), ("Accep
       ("X-Thing".toList, "2".toList)] ++ crlf ++ [1, 2])
     = .done [("x-thing".toList, "2".toList), ("accept".toList, "é".toList)] [1, 2] := by decide +kernel
 
+/-! ## requests -/
+
+/-- **C30, request on the wire** (every method, target, header block and body; every `urllib.parse`): a request line
+`METHOD target HTTP/1.1`, at most 100 well-formed header lines that frame the body (`Content-Length` = its length, or
+none for an empty body, no `Transfer-Encoding`), the empty line and the body are parsed by `Requestant` into the same
+method, target, headers (lower-cased names, later duplicates win) and body; path and query are what `urlsplit` /
+`unquote` make of the target; bytes after the body are left untouched. -/
+theorem C30_request_wire_roundtrip (S : Std) (method target : Str) (hs : List (Str × Str)) (body rest : Bytes) (port : Option Nat)
+    (hm : method ∈ METHODS) (ht : Visible target)
+    (hline : (method ++ ' ' :: (target ++ ' ' :: "HTTP/1.1".toList)).length ≤ MAX_LINE_SIZE)
+    (hport : (S.urlsplit target).port = some port)
+    (hgood : ∀ kv ∈ hs, GoodName kv.1 ∧ GoodValue kv.2 ∧ (headerLine kv.1 kv.2).length ≤ MAX_LINE_SIZE)
+    (hcount : hs.length ≤ MAX_HEADERS)
+    (hte : odGet (hs.foldl (fun d kv => loSet d kv.1 kv.2) []) "transfer-encoding".toList = none)
+    (hcl : (body = [] ∧ odGet (hs.foldl (fun d kv => loSet d kv.1 kv.2) []) "content-length".toList = none)
+         ∨ odGet (hs.foldl (fun d kv => loSet d kv.1 kv.2) []) "content-length".toList = some (natStr body.length)) :
+    ∃ q, parseRequest S (requestBytes method target hs body ++ rest) = .done q rest
+      ∧ q.method = method ∧ q.url = target ∧ q.version = (1, 1)
+      ∧ q.path = S.unquote (S.urlsplit target).path ∧ q.query = (S.urlsplit target).query
+      ∧ q.headers = hs.foldl (fun d kv => loSet d kv.1 kv.2) [] ∧ q.chunked = false ∧ q.body = body := by
+  have hmv := methods_visible method hm
+  let line : Str := method ++ ' ' :: (target ++ ' ' :: "HTTP/1.1".toList)
+  have hver : Visible "HTTP/1.1".toList := by unfold Visible; decide
+  have hraw : requestBytes method target hs body ++ rest
+      = line.map Char.toNat ++ 13 :: 10 :: (headerBlock hs ++ crlf ++ (body ++ rest)) := by
+    simp [requestBytes, crlf, line]
+  have h13 : 13 ∉ line.map Char.toNat := by
+    intro h
+    obtain ⟨c, hc, e⟩ := List.mem_map.1 h
+    simp only [line, List.mem_append, List.mem_cons] at hc
+    rcases hc with hc | rfl | hc | rfl | hc
+    · have := hmv.2 c hc; omega
+    · simp at e
+    · have := ht.2 c hc; omega
+    · simp at e
+    · have := hver.2 c hc; omega
+  have hne : (requestBytes method target hs body ++ rest).isEmpty = false := by
+    rw [hraw]
+    have : line ≠ [] := by simp [line]
+    cases h : line.map Char.toNat with
+    | nil => simp at h; exact absurd h this
+    | cons _ _ => rfl
+  have hpl := parseLine_crlf false (line.map Char.toNat) (headerBlock hs ++ crlf ++ (body ++ rest)) h13 (by rw [List.length_map]; exact hline)
+  have hsplit : splitWs line = [method, target, "HTTP/1.1".toList] :=
+    splitWs_three _ _ _ (visible_nospace hmv) (visible_nospace ht) (visible_nospace hver) hmv.1 ht.1 hver.1
+  have hprl : parseRequestLine (line.map Char.toNat) = .ok (method, target, "HTTP/1.1".toList) := by
+    unfold parseRequestLine
+    rw [decode_encode]
+    have hl : line.isEmpty = false := by simp [line]
+    have hsw : startsWith ['H', 'T', 'T', 'P', '/'] ['H', 'T', 'T', 'P', '/', '1', '.', '1'] = true := by decide
+    simp [hl, hsplit, hsw, hm]
+  have hstrip : stripC target = target := stripC_id _ (visible_nospace ht)
+  have hlead := (C30_header_roundtrip hs (body ++ rest) hgood hcount).2
+  have hv0 : startsWith "HTTP/1.".toList "HTTP/1.1".toList = true := by decide
+  have hv1 : startsWith "HTTP/1.0".toList "HTTP/1.1".toList = false := by decide
+  unfold parseRequest
+  rw [hraw] at hne ⊢
+  simp only [hne, Bool.false_eq_true, if_false, hpl, hprl, hstrip, hv0, hv1, Bool.not_true, hport, hlead, hte]
+  have hlt : ¬ (body ++ rest).length < body.length := by simp
+  have htake : (body ++ rest).take body.length = body := by simp
+  have hdrop : (body ++ rest).drop body.length = rest := by simp
+  rcases hcl with ⟨hb, hnone⟩ | hsome
+  · subst hb
+    simp only [hnone, contentLength]
+    simp only [List.nil_append, List.length_nil, Nat.not_lt_zero, if_false, List.take_zero, List.drop_zero]
+    exact ⟨_, rfl, rfl, rfl, rfl, rfl, rfl, rfl, rfl, rfl⟩
+  · simp only [hsome, contentLength_natStr]
+    have hne' : (natStr body.length).isEmpty = false := by
+      cases h : natStr body.length with
+      | nil => exact absurd h (natStr_ne_nil _)
+      | cons _ _ => rfl
+    simp only [hne', Bool.false_eq_true, if_false, hlt, htake, hdrop]
+    exact ⟨_, rfl, rfl, rfl, rfl, rfl, rfl, rfl, rfl, rfl⟩
+
+
 end Ioflo.HttpCodec
